@@ -67,7 +67,7 @@ func c15Gen(r *Rng, tier string, i int) Sx {
 	idx := r.Intn(n)
 	pat := pats[idx]
 	var vals []Sx
-	special := []string{"a b", "é", "100%", "a%20b", "rate%25", "c%2b%2B", "a?b", "x#y", "q&r", "a;b", "..", "bob ", " x", "{b}", "a/", "%zz"}
+	special := []string{"a b", "é", "100%", "a%20b", "rate%25", "c%2b%2B", "a?b", "x#y", "q&r", "a;b", "..", "bob ", " x", "{b}", "a/", "%zz", "go[1.22]", "matrix[0", "[draft] x", "a]b", "[", "[]"}
 	for _, seg := range pat.req {
 		for _, p := range seg {
 			if p.v == nil {
